@@ -2,6 +2,7 @@ package main
 
 import (
 	_ "verif/harness/checks"
+	_ "verif/harness/checks/grpa"
 	"verif/harness/lib"
 )
 
